@@ -9,6 +9,7 @@ CONSTANTS
   EmitOps = TRUE
   AllowNTL = TRUE
   TwoWrites = TRUE
+  AllowNil = TRUE
 INVARIANTS StateInv NoFuture
 PROPERTY Refines
 ACTION_CONSTRAINT Emit
